@@ -314,6 +314,26 @@ Fixpoint fate (rem n : nat) (sc : nat -> outcome) : answer * nat :=
   | ONoErr => match rem with O => (AIndexErr (-1) 3, S n) | S r => fate r (S n) sc end
   end.
 
+(* The same promise when whole-request errors occur, for a document [d] of a bulk request holding the documents [live]
+   (retry count [n], all of them sent [s] times before): a request that fails as a whole answers nobody, is sent again
+   unchanged and does NOT use up a retry; otherwise [d] succeeds on 2xx, fails at once on a mapping conflict, and on any
+   other failure fails for good when n = max retries, else goes - with the other documents that failed retryably - into
+   the next request (n + 1).  Result: (the one answer, how often [d] is sent in all). *)
+Fixpoint bfate (fuel maxr : nat) (sc : script) (live : list doc) (n s : nat) (d : doc) : answer * nat :=
+  match fuel with
+  | O => (AOther, O)
+  | S f =>
+      if existsb (fun d' => is_whole (outcome_at sc (d_id d') s)) live then bfate f maxr sc live n (S s) d
+      else
+        let next := filter (fun d' => is_retryable (outcome_at sc (d_id d') s)) live in
+        match outcome_at sc (d_id d) s with
+        | OOk | OWhole => (ASuccess, S s)
+        | OMapping => (AIndexErr (Z.of_nat s) 2, S s)
+        | ORetry => if (n =? maxr)%nat then (AIndexErr (Z.of_nat s) 1, S s) else bfate f maxr sc next (S n) (S s) d
+        | ONoErr => if (n =? maxr)%nat then (AIndexErr (-1) 3, S s) else bfate f maxr sc next (S n) (S s) d
+        end
+  end.
+
 Definition no_whole (sc : script) : bool :=
   forallb (fun e => forallb (fun ol => negb (is_whole (fst ol))) (snd e)) sc.
 
@@ -338,6 +358,14 @@ Fixpoint lookup_answers (id : Z) (l : list (Z * list tree)) : list tree :=
   end.
 Definition has_doc (id : Z) (c : list doc) : bool := existsb (fun d => d_id d =? id) c.
 Definition count_calls (id : Z) (calls : list (list doc)) : nat := length (filter (has_doc id) calls).
+(* the batch a document was accepted into = the longest bulk request that holds it (every later request of that
+   batch is a sub-list of the first) *)
+Fixpoint batch_of_acc (id : Z) (best : list doc) (calls : list (list doc)) : list doc :=
+  match calls with
+  | [] => best
+  | c :: rest => batch_of_acc id (if has_doc id c && (length best <? length c)%nat then c else best) rest
+  end.
+Definition batch_of (id : Z) (calls : list (list doc)) : list doc := batch_of_acc id [] calls.
 
 (* failing clauses (property 14):
    1 [0;id] an accepted request is not answered exactly once with the answer the statement promises
@@ -356,15 +384,15 @@ Definition spec_c14 (i : einput) (o : eobs) : list tree :=
   let docs := docs_of (ei_ops i) in
   let pend := if ei_clean i then [] else pending_at_end cfg (ei_ops i) in
   let nw := no_whole (ei_script i) in
-  let f d := fate (max_retries cfg) O (outcome_at (ei_script i) (d_id d)) in
+  let f d := if nw then fate (max_retries cfg) O (outcome_at (ei_script i) (d_id d))
+             else bfate (fuel_for cfg (ei_script i)) (max_retries cfg) (ei_script i) (batch_of (d_id d) (eo_calls o)) O O d in
   let dropped d := has_doc (d_id d) pend && is_empty_list (lookup_answers (d_id d) (eo_answers o)) in
   flat_map (fun d =>
     let got := lookup_answers (d_id d) (eo_answers o) in
     if dropped d then [clause 14 6 [L 1; L (d_id d)]]
-    else if nw then (if list_eqb tree_eqb got [enc_answer (fst (f d))] then [] else [clause 14 1 [L 0; L (d_id d)]])
-    else match got with [_] => [] | _ => [clause 14 1 [L 0; L (d_id d)]] end) docs
+    else if list_eqb tree_eqb got [enc_answer (fst (f d))] then [] else [clause 14 1 [L 0; L (d_id d)]]) docs
   ++ flat_map (fun d =>
-    if negb nw || dropped d then []
+    if dropped d then []
     else if (count_calls (d_id d) (eo_calls o) =? snd (f d))%nat then [] else [clause 14 2 [L 0; L (d_id d)]]) docs
   ++ (if forallb (fun c => (length c <=? batch_size cfg)%nat && nodupb (map d_id c)
                            && forallb (fun x => existsb (doc_eqb x) docs) c) (eo_calls o)
